@@ -1,0 +1,104 @@
+//go:build verif
+
+// Contracts for the body element list, second batch (property C08): the two filtered views and the
+// remaining appenders of document.go / table.go / math.go, read by /verif/engine (govc).
+// Comments only: with or without the build tag this file adds no code to the package.
+package document
+
+// tableCount(es, j): number of tables among es[0:j] (isTable is defined with the clone contracts).
+//@ spec tableCount(es []any, j int) int = ite(j <= 0, 0, tableCount(es, j - 1) + ite(isTable(es[j-1]), 1, 0))
+
+// GetParagraphs / GetTables: the paragraphs (tables) of the body in body order, in a fresh slice; nothing is written.
+//@ func (*Body).GetParagraphs
+//@ props C08
+//@ requires b != nil
+//@ modifies nothing
+//@ ensures len(result) == old(paraCount(b.Elements, len(b.Elements))) && freshArr(result)
+//@ ensures forall j int :: 0 <= j && j < len(b.Elements) && isPara(b.Elements[j]) ==> result[old(paraCount(b.Elements, j))] == b.Elements[j].(*Paragraph)
+//@ loop 1
+//@   invariant 0 <= #i && #i <= len(b.Elements) && unchangedHeap()
+//@   invariant len(paragraphs) == old(paraCount(b.Elements, #i)) && freshArr(paragraphs)
+//@   invariant forall j int :: 0 <= j && j <= #i ==> 0 <= old(paraCount(b.Elements, j))
+//@   invariant forall j int :: 0 <= j && j < #i && isPara(b.Elements[j]) ==> old(paraCount(b.Elements, j)) < len(paragraphs)
+//@   invariant forall j int :: 0 <= j && j < #i && isPara(b.Elements[j]) ==> paragraphs[old(paraCount(b.Elements, j))] == b.Elements[j].(*Paragraph)
+//@   decreases len(b.Elements) - #i
+
+//@ func (*Body).GetTables
+//@ props C08
+//@ requires b != nil
+//@ modifies nothing
+//@ ensures len(result) == old(tableCount(b.Elements, len(b.Elements))) && freshArr(result)
+//@ ensures forall j int :: 0 <= j && j < len(b.Elements) && isTable(b.Elements[j]) ==> result[old(tableCount(b.Elements, j))] == b.Elements[j].(*Table)
+//@ loop 1
+//@   invariant 0 <= #i && #i <= len(b.Elements) && unchangedHeap()
+//@   invariant len(tables) == old(tableCount(b.Elements, #i)) && freshArr(tables)
+//@   invariant forall j int :: 0 <= j && j <= #i ==> 0 <= old(tableCount(b.Elements, j))
+//@   invariant forall j int :: 0 <= j && j < #i && isTable(b.Elements[j]) ==> old(tableCount(b.Elements, j)) < len(tables)
+//@   invariant forall j int :: 0 <= j && j < #i && isTable(b.Elements[j]) ==> tables[old(tableCount(b.Elements, j))] == b.Elements[j].(*Table)
+//@   decreases len(b.Elements) - #i
+
+// bodyKept(d, n): the first n body slots hold what they held at entry (stated per appender below).
+// AddFormattedParagraph: exactly one fresh paragraph appended at the end, one run with the text and a fresh
+// run-properties object; every earlier slot unchanged.
+//@ func (*Document).AddFormattedParagraph
+//@ props C08
+//@ requires d != nil && d.Body != nil
+//@ ensures fresh(result)
+//@ ensures len(d.Body.Elements) == old(len(d.Body.Elements)) + 1
+//@ ensures typeIs(d.Body.Elements[old(len(d.Body.Elements))], "*Paragraph") && d.Body.Elements[old(len(d.Body.Elements))].(*Paragraph) == result
+//@ ensures forall j int :: 0 <= j && j < old(len(d.Body.Elements)) ==> d.Body.Elements[j] == old(d.Body.Elements[j])
+//@ ensures len(result.Runs) == 1 && freshArr(result.Runs) && result.Runs[0].Text.Content == text && result.Properties == nil && fresh(result.Runs[0].Properties)
+//@ ensures format != nil ==> ((result.Runs[0].Properties.Bold != nil) == format.Bold) && ((result.Runs[0].Properties.Italic != nil) == format.Italic) && ((result.Runs[0].Properties.Strike != nil) == format.Strike)
+//@ ensures format == nil ==> result.Runs[0].Properties.Bold == nil && result.Runs[0].Properties.Italic == nil && result.Runs[0].Properties.FontFamily == nil && result.Runs[0].Properties.Color == nil && result.Runs[0].Properties.FontSize == nil
+//@ ensures old(elemsOK(d.Body.Elements)) && (forall j int :: 0 <= j && j < old(len(d.Body.Elements)) ==> d.Body.Elements[j] == old(d.Body.Elements[j])) && len(d.Body.Elements) == old(len(d.Body.Elements)) + 1 && result != nil && d.Body.Elements[old(len(d.Body.Elements))].(*Paragraph) == result ==> elemsOK(d.Body.Elements)
+//@ ensures unchangedExcept("Body.Elements", "cell:any")
+
+// AddHeadingParagraphWithBookmark appends either exactly one paragraph (no bookmark requested, or the heading
+// style is missing and the call falls back to AddParagraph) or exactly three elements: a bookmark start, the
+// paragraph, a bookmark end carrying the start's id. The result is always the appended paragraph.
+//@ spec headingPlain(d *Document, n int, p *Paragraph) bool = len(d.Body.Elements) == n + 1 && typeIs(d.Body.Elements[n], "*Paragraph") && d.Body.Elements[n].(*Paragraph) == p
+//@ spec headingMarked(d *Document, n int, p *Paragraph, name string) bool = len(d.Body.Elements) == n + 3 && typeIs(d.Body.Elements[n], "*BookmarkStart") && typeIs(d.Body.Elements[n+1], "*Paragraph") && typeIs(d.Body.Elements[n+2], "*BookmarkEnd") && d.Body.Elements[n+1].(*Paragraph) == p && d.Body.Elements[n].(*BookmarkStart) != nil && d.Body.Elements[n+2].(*BookmarkEnd) != nil && d.Body.Elements[n].(*BookmarkStart).Name == name && d.Body.Elements[n+2].(*BookmarkEnd).ID == d.Body.Elements[n].(*BookmarkStart).ID
+
+// headingStyled: the style manager of the document knows the heading style of the (clamped) level.
+//@ spec headingLevel(level int) int = ite(level < 1 || level > 9, 1, level)
+//@ spec headingStyled(d *Document, level int) bool = has(d.styleManager.styles, sprintf("Heading%d", headingLevel(level))) && d.styleManager.styles[sprintf("Heading%d", headingLevel(level))] != nil
+
+//@ func (*Document).AddHeadingParagraphWithBookmark
+//@ props C08, C13
+//@ requires d != nil && d.Body != nil && d.styleManager != nil
+//@ ensures fresh(result)
+//@ ensures headingPlain(d, old(len(d.Body.Elements)), result) || (bookmarkName != "" && headingMarked(d, old(len(d.Body.Elements)), result, bookmarkName))
+//@ ensures bookmarkName == "" ==> headingPlain(d, old(len(d.Body.Elements)), result)
+//@ ensures old(headingStyled(d, level)) && bookmarkName != "" ==> headingMarked(d, old(len(d.Body.Elements)), result, bookmarkName)
+//@ ensures !old(headingStyled(d, level)) ==> headingPlain(d, old(len(d.Body.Elements)), result) && result.Properties == nil
+//@ ensures old(headingStyled(d, level)) ==> result.Properties != nil && result.Properties.ParagraphStyle != nil && result.Properties.ParagraphStyle.Val == sprintf("Heading%d", headingLevel(level))
+//@ ensures len(d.Body.Elements) == old(len(d.Body.Elements)) + 3 ==> fresh(d.Body.Elements[old(len(d.Body.Elements))].(*BookmarkStart)) && fresh(d.Body.Elements[old(len(d.Body.Elements)) + 2].(*BookmarkEnd))
+//@ ensures forall j int :: 0 <= j && j < old(len(d.Body.Elements)) ==> d.Body.Elements[j] == old(d.Body.Elements[j])
+//@ ensures len(result.Runs) == 1 && result.Runs[0].Text.Content == text
+//@ ensures old(elemsOK(d.Body.Elements)) && (forall j int :: 0 <= j && j < old(len(d.Body.Elements)) ==> d.Body.Elements[j] == old(d.Body.Elements[j])) && result != nil && (headingPlain(d, old(len(d.Body.Elements)), result) || headingMarked(d, old(len(d.Body.Elements)), result, bookmarkName)) ==> elemsOK(d.Body.Elements)
+//@ ensures result.Properties != nil ==> result.Properties.ParagraphStyle != nil && result.Properties.ParagraphStyle.Val == sprintf("Heading%d", ite(1 <= level && level <= 9, level, 1)) && has(d.styleManager.styles, result.Properties.ParagraphStyle.Val)
+//@ ensures result.Properties == nil <==> old(style.styleOf(d.styleManager, sprintf("Heading%d", ite(1 <= level && level <= 9, level, 1)))) == nil
+//@ ensures unchangedExcept("Body.Elements", "cell:any")
+
+//@ func (*Document).AddHeadingParagraph
+//@ props C08, C13
+//@ requires d != nil && d.Body != nil && d.styleManager != nil
+//@ ensures fresh(result)
+//@ ensures headingPlain(d, old(len(d.Body.Elements)), result)
+//@ ensures forall j int :: 0 <= j && j < old(len(d.Body.Elements)) ==> d.Body.Elements[j] == old(d.Body.Elements[j])
+//@ ensures len(result.Runs) == 1 && result.Runs[0].Text.Content == text
+//@ ensures old(elemsOK(d.Body.Elements)) && (forall j int :: 0 <= j && j < old(len(d.Body.Elements)) ==> d.Body.Elements[j] == old(d.Body.Elements[j])) && result != nil && headingPlain(d, old(len(d.Body.Elements)), result) ==> elemsOK(d.Body.Elements)
+//@ ensures result.Properties != nil ==> result.Properties.ParagraphStyle != nil && result.Properties.ParagraphStyle.Val == sprintf("Heading%d", ite(1 <= level && level <= 9, level, 1)) && has(d.styleManager.styles, result.Properties.ParagraphStyle.Val)
+//@ ensures result.Properties == nil <==> old(style.styleOf(d.styleManager, sprintf("Heading%d", ite(1 <= level && level <= 9, level, 1)))) == nil
+//@ ensures unchangedExcept("Body.Elements", "cell:any")
+
+// AddMathFormula: exactly one fresh math paragraph appended at the end.
+//@ func (*Document).AddMathFormula
+//@ props C08
+//@ requires d != nil && d.Body != nil
+//@ ensures fresh(result)
+//@ ensures len(d.Body.Elements) == old(len(d.Body.Elements)) + 1
+//@ ensures typeIs(d.Body.Elements[old(len(d.Body.Elements))], "*MathParagraph") && d.Body.Elements[old(len(d.Body.Elements))].(*MathParagraph) == result
+//@ ensures forall j int :: 0 <= j && j < old(len(d.Body.Elements)) ==> d.Body.Elements[j] == old(d.Body.Elements[j])
+//@ ensures old(elemsOK(d.Body.Elements)) && (forall j int :: 0 <= j && j < old(len(d.Body.Elements)) ==> d.Body.Elements[j] == old(d.Body.Elements[j])) && len(d.Body.Elements) == old(len(d.Body.Elements)) + 1 && result != nil && d.Body.Elements[old(len(d.Body.Elements))].(*MathParagraph) == result ==> elemsOK(d.Body.Elements)
+//@ ensures unchangedExcept("Body.Elements", "cell:any")
